@@ -37,6 +37,10 @@ pub struct Plan {
     /// scratchpad: counter*4+form)
     pub version_params: Vec<u32>,
     pub steps: Vec<Step>,
+    /// register versions share a block of 520 further ops (op counts of two versions add up to more than the
+    /// 1024-entry limit while their union stays below it)
+    #[serde(default)]
+    pub big_register: bool,
 }
 
 pub struct GetRecordSim;
@@ -55,7 +59,6 @@ impl Sim for GetRecordSim {
             rule: "One run = 1..4 callers of the real Network::get_record_from_network for one key (own quorum One/Majority/All/N(1..8), optional expected record) arriving before/between/after replies, and a seeded stream of kad progress events fed to the real handlers: FoundRecord from 0..8 peers holding 1..4 versions (opaque, registers incl. unverifiable ones, transaction sets, scratchpads valid/unsigned/forged/equal counters, mixed kinds), duplicates, and a terminal event (finished, not found, quorum failed, timeout). Mode orderly: every peer answers once, versions of one kind; mode adversarial: duplicates, late callers, mixed kinds, early terminals. Each caller's outcome is checked against its OWN quorum and target. Non-trivial = >=3 operations and (>=1 duplicated/late/terminal-before-quorum event or non-FIFO decision); distinct = fingerprint of the event and scheduling sequence.",
             assumptions: vec![
                 "the simulator plays libp2p's kad query engine: it emits the same kad::Event values the engine emits (OutboundQueryProgressed with FoundRecord / FinishedWithNoAdditionalRecord / errors); the engine itself is not run",
-                "caller cancellation (dropping the future) is not injected",
                 "retries with back-off are exercised only with a single caller (the back-off jitter comes from an unseeded fastrand generator)",
             ],
         }]
@@ -65,6 +68,7 @@ impl Sim for GetRecordSim {
         let adversarial = ctx.mode == "adversarial";
         let kind = if adversarial && rng.chance(1, 8) { 4 } else { rng.below(4) as u8 };
         let n_versions = if rng.chance(1, 3) { 1 } else { rng.range(2, 4) as u8 };
+        let big = rng.chance(1, 40);
         let version_params: Vec<u32> = (0..n_versions)
             .map(|i| match kind {
                 3 => {
@@ -166,6 +170,7 @@ impl Sim for GetRecordSim {
             n_versions,
             version_params,
             steps,
+            big_register: kind == 1 && big,
         }
     }
 
